@@ -4,6 +4,8 @@ import Clikit.Lemmas.C11Lex
 import Clikit.Lemmas.C11Output
 import Clikit.Lemmas.C11Indent
 import Clikit.Lemmas.C11Balanced
+import Clikit.Lemmas.SectionScopes
+import Clikit.Props.C15
 /-!
 # C11 - decoration changes only the look: same text, right codes, none when plain
 
@@ -271,6 +273,55 @@ theorem scope_restores (p : Prog) (i : Ind) :
   intro t inc n body
   rw [exec_eq_lexical]
 
+/-! ## Indentation scopes over several section outputs
+
+`Model/SectionScopes.lean`: programs of scopes (on single sections and on the output they belong to) around
+the creation of sections and the writes / overwrites / clears on them; a write on an earlier section re-draws
+the sections shown below it.  The history a program performs runs on the section model of C15
+(`Section.runI`); the theorems of C15 say what the screen shows. -/
+
+/-- **Scopes over sections are lexical, and leave nothing behind.**  For every program (any nesting, exits by
+exception included): the history it performs, read as a history of the base model, is the lexical reading -
+every write carries its lines behind the indentation the ENCLOSING scopes fix for its section (an empty line
+stays empty: `Section.emitLine` is `indentLine` of `indent_lines`), a section created inside scopes on the
+output starts from what they fix -; afterwards the output and every section that existed before have the
+indentation they had, and an exception propagates exactly when the lexical reading says so. -/
+theorem section_scopes_lexical (p : SecScopes.SProg) (e : SecScopes.Env) :
+    Section.flat e.ind (SecScopes.compile p e).1 = (SecScopes.lexical p e).1 ∧
+    (SecScopes.compile p e).2.1 = { out := e.out, ind := e.ind ++ (SecScopes.lexical p e).2.1 } ∧
+    (SecScopes.compile p e).2.2 = (SecScopes.lexical p e).2.2 ∧
+    (∀ n l, Section.emitLine n l = indentLine n l) := by
+  obtain ⟨h1, _, h3, h4⟩ := SecScopes.compile_lexical p e
+  refine ⟨h1, h3, h4, ?_⟩
+  intro n l
+  rfl
+
+/-- **A re-drawn line keeps the indentation that was in force when it was written.**  For every program over
+sections of a decorated output, every width and whatever the output's own indentation `o` is: the sections and
+the byte stream are those of the base model on the lexical reading; interpreting the stream on a terminal
+shows, below what was there, exactly the contents of all sections in creation order; and these contents are
+what the lexical reading asks for (`specStep`: a write appends its lines - each behind the indentation fixed
+by the scopes around THAT write -, overwrite replaces, clear drops).  So no line on the screen, re-drawn by a
+later operation on a section above it or not, carries any other indentation than the one in force on its
+section at the moment it was written. -/
+theorem section_redraw_keeps_indent (w : Nat) (hw : 1 ≤ w) (p : SecScopes.SProg) (o : Nat) (above : List Str) :
+    let h := (SecScopes.compile p { out := o, ind := [] }).1
+    let lx := (SecScopes.lexical p { out := o, ind := [] }).1
+    let r := Section.runI true w { secs := [], ind := [] } h
+    r.1.secs = (Section.run true w [] lx).1 ∧ r.2 = (Section.run true w [] lx).2 ∧
+    (Term.execs w { rows := above, cur := above.length } r.2).rows = above ++ Section.stacked w r.1.secs ∧
+    r.1.secs.reverse.map (·.content) = lx.foldl Section.specStep [] := by
+  have hl := (section_scopes_lexical p { out := o, ind := [] }).1
+  have hs := Clikit.Props.C15.indent_simulates true w (SecScopes.compile p { out := o, ind := [] }).1
+  simp only at hl
+  rw [hl] at hs
+  refine ⟨hs.1, hs.2, ?_, ?_⟩
+  · have := (Clikit.Props.C15.screen_refines_indented w hw (SecScopes.compile p { out := o, ind := [] }).1 above).1
+    exact this
+  · have := Clikit.Props.C15.contents_spec_indented w (SecScopes.compile p { out := o, ind := [] }).1
+    rw [hl] at this
+    exact this
+
 /-! ## The hypotheses are decided on the real messages and styles
 
 `Balanced`, `ESC ∉ msg`, `'\\' ∉ msg` and `expectedCodes s = some cs` are facts about the generated
@@ -415,6 +466,40 @@ example : (render exResolver false [] [.open ['i'], .close ['b']]).toOption = no
 example : indentText 2 ['a', '\n', '\n', 'b'] = [' ', ' ', 'a', '\n', '\n', ' ', ' ', 'b'] := by decide
 
 example : rstripNl ['a', '\n', 'b', '\n', '\n'] = ['a', '\n', 'b'] := by decide
+
+/-- Two sections; the later-created one shows `bottom` (indentation 0, inside a scope of its own: 2).  The
+earlier one writes `top` inside `with top.indent(4)` and - the scope left through an exception that is caught
+- `t2` at its own indentation again.  Each write re-draws the lower section AS IT IS: `  bottom` stays behind
+two blanks, it does not get the 4 of the writer. -/
+private def demoSP : SecScopes.SProg :=
+  .seq .create (.seq .create
+    (.seq (.scope (.sec 1) false 2 (.act (.write 1 ["bottom".toList])))
+      (.seq (.attempt (.scope (.sec 0) false 4 (.seq (.act (.write 0 ["top".toList, []])) .raise)))
+        (.act (.write 0 ["t2".toList])))))
+
+example : (SecScopes.compile demoSP { out := 0, ind := [] }).1 =
+    [.create 0, .create 0, .indent 1 2, .op (.write 1 ["bottom".toList]), .indent 1 0,
+     .indent 0 4, .op (.write 0 ["top".toList, []]), .indent 0 0, .op (.write 0 ["t2".toList])] := by decide
+
+example : (SecScopes.lexical demoSP { out := 0, ind := [] }).1 =
+    [.create, .create, .write 1 ["  bottom".toList], .write 0 ["    top".toList, []], .write 0 ["t2".toList]] := by
+  decide
+
+example : (Section.runI true 20 { secs := [], ind := [] } (SecScopes.compile demoSP { out := 0, ind := [] }).1).2 =
+    [.print "  bottom".toList, .up 1, .eraseBelow, .print "    top".toList, .print [], .print "  bottom".toList,
+     .up 1, .eraseBelow, .print "t2".toList, .print "  bottom".toList] := by decide
+
+example := section_scopes_lexical demoSP { out := 0, ind := [] }
+example := section_redraw_keeps_indent 20 (by decide) demoSP 0 ["$ run".toList]
+
+/-- what would go wrong if a re-draw went through the writer's indentation again: the lower line would stand
+behind 2 + 4 blanks - not what the lexical reading (and the model of the code) says -/
+example : Section.emitLine 4 (Section.emitLine 2 "bottom".toList) ≠ Section.emitLine 2 "bottom".toList := by decide
+
+/-- a section created inside a scope on the output inherits what the scope fixes; the scope itself leaves
+nothing behind -/
+example : SecScopes.compile (.seq (.scope .out true 3 .create) .create) { out := 1, ind := [] } =
+    ([.create 4, .create 1], { out := 1, ind := [4, 1] }, false) := by decide
 
 /-- a scope left by an exception that is caught further out: the line after it is back at the
 old indentation -/
